@@ -111,6 +111,19 @@ func (loader *Loader) loadSingleElementFromURI(ref string, rootPath *url.URL, el
 	if err != nil {
 		return nil, err
 	}
+	// a file whose whole content is a reference to another whole file: follow the chain of files
+	for hops := 0; hops < 32; hops++ {
+		var only Ref
+		if unmarshal(data, &only, false) != nil || only.Ref == "" || !isSingleRefElement(only.Ref) {
+			break
+		}
+		if resolvedPath, err = resolvePathWithRef(only.Ref, resolvedPath); err != nil {
+			return nil, err
+		}
+		if data, err = loader.readURL(resolvedPath); err != nil {
+			return nil, err
+		}
+	}
 	if err := unmarshal(data, element, IncludeOrigin); err != nil {
 		return nil, err
 	}
